@@ -36,7 +36,8 @@ func NewWithOptions(opts *Options) *MemFS {
 
 	idm := opts.Idm
 	if idm == nil {
-		idm = memidm.New()
+		// the default identity manager follows the OS type of the file system, not the one of the host.
+		idm = memidm.NewWithOptions(&memidm.Options{OSType: opts.OSType})
 	}
 
 	features := avfs.FeatHardlink | avfs.FeatSubFS | avfs.FeatSymlink | idm.Features() | avfs.BuildFeatures()
